@@ -82,7 +82,7 @@ def cmd_group(a):
         r["shrink_execs"] = used
         r["shrink_s"] = round(time.time() - t0, 2)
         r["pythonhashseed"] = os.environ.get("PYTHONHASHSEED")
-        r["count_in_group"] = sum(1 for x in agg["violations"] if x["kind"] == v["kind"])
+        r["count_in_group"] = agg["probes"].get("violations:" + v["kind"], 1)
         shrunk.append(r)
     agg["shrunk"] = shrunk
     agg["pythonhashseed"] = os.environ.get("PYTHONHASHSEED")
